@@ -138,7 +138,7 @@ pub fn main(args: &crate::Args) {
                 if quick && h > 12 && !matches!(t, 13 | 14) {
                     continue;
                 }
-                let c = Config { w, h, layout: if t == 14 || t == 15 { (w % 2) as u32 } else { 1 }, depth: 12, float: 0, pattern: 7, tree: (w as u32 + t) % 14, leaf_variant: 0, wp: 0, transform: t, coder: (h % 2) as u32, lz77: 0, global_tree: true, group_shift: 1, passes: 0, toc_perm: 0, wide: false, ec_dim_shift: 0, force16: true };
+                let c = Config { w, h, layout: if t == 14 || t == 15 { (w % 2) as u32 } else { 1 }, depth: 12, float: 0, pattern: 7, tree: (w as u32 + t) % 14, leaf_variant: 0, wp: 0, transform: t, coder: (h % 2) as u32, lz77: 0, global_tree: true, group_shift: 1, passes: 0, toc_perm: 0, wide: false, ec_dim_shift: 0, force16: true, lz77_copies: 0 };
                 if let Some(b) = build(&c, seed) {
                     cases.push((b.bytes, 100, 0, format!("shape:{w}x{h}:t{t}")));
                 }
